@@ -10,6 +10,7 @@ from vf.stdio_harness import run_stdio_script
 
 ID = "C13"
 LEVEL = "exploration"
+BACKENDS = ["pydantic", "fallback"]   # every case is executed under both validation backends
 SHARDS = {"quick": 4, "thorough": 16}
 BUDGET_S = {"quick": 90.0, "thorough": 900.0}
 TECHNIQUE = ("runtime monitoring: differential oracle supports_batching vs ProtocolVersion.compare over the date "
